@@ -94,6 +94,7 @@ struct RunRes {
 };
 
 static char* g_stackTop = nullptr;
+static bool g_noExercise = false;   // probes that time the reader alone
 static size_t g_memLimit = 0, g_memBase = 0;
 #if C11_ASAN
 static void mallocHook(const volatile void*, size_t) {
@@ -224,6 +225,7 @@ static RunRes runIsolated(const std::string& reader, const std::string& data, bo
         size_t before = __sanitizer_get_current_allocated_bytes();
 #endif
         auto send = [&](const std::string& o) { size_t off = 0; while (off < o.size()) { ssize_t w = write(pfd[1], o.data() + off, o.size() - off); if (w <= 0) break; off += (size_t) w; } };
+        { char bb[48]; std::snprintf(bb, sizeof bb, "B %ld\n", rssKB()); send(bb); }
         double t0 = cpuNow();
         GEOSGeometry* g = callReader(reader, data);
         double tRead = cpuNow() - t0;
@@ -236,7 +238,7 @@ static RunRes runIsolated(const std::string& reader, const std::string& data, bo
             send(std::string("R ok\n") + tb);
             if (wantDump) send("K " + dumpGeom(reinterpret_cast<const Geometry*>(g)) + "\n"); else send("K -\n");
             double slow = 0; const char* slowOp = "-";
-            std::string ex = exercise(g, &slow, &slowOp);
+            std::string ex = g_noExercise ? std::string("skipped") : exercise(g, &slow, &slowOp);
             double t1 = cpuNow(); GEOSGeom_destroy_r(H, g); double td = cpuNow() - t1; if (td > slow) { slow = td; slowOp = "destroy"; }
             char sb[96]; std::snprintf(sb, sizeof sb, " slowest=%s:%.6f", slowOp, slow);
             send("P " + ex + sb + "\n");
@@ -256,15 +258,16 @@ static RunRes runIsolated(const std::string& reader, const std::string& data, bo
     int st = 0; struct rusage ru; std::memset(&ru, 0, sizeof ru);
     wait4(pid, &st, 0, &ru);
     R.cpu = (double) ru.ru_utime.tv_sec + ru.ru_utime.tv_usec * 1e-6 + (double) ru.ru_stime.tv_sec + ru.ru_stime.tv_usec * 1e-6;
-    R.rssGrowKB = std::max(0L, (long) ru.ru_maxrss - rss0);
     bool haveK = false, haveE = false, haveP = false, haveL = false, haveR = false; std::string eCls;
     { std::istringstream is(got); std::string line; while (std::getline(is, line)) {
         if (line.rfind("K ", 0) == 0) { haveK = true; R.dump = line.substr(2); }
         else if (line.rfind("R ", 0) == 0) haveR = true;
+        else if (line.rfind("B ", 0) == 0) rss0 = std::atol(line.c_str() + 2);
         else if (line.rfind("T ", 0) == 0) R.cpuRead = std::atof(line.c_str() + 2);
         else if (line.rfind("E ", 0) == 0) { haveE = true; eCls = line.substr(2); }
         else if (line.rfind("P ", 0) == 0) { haveP = true; R.post = line.substr(2); }
         else if (line.rfind("L ", 0) == 0) haveL = true; } }
+    R.rssGrowKB = std::max(0L, (long) ru.ru_maxrss - rss0);
     if (WIFEXITED(st) && WEXITSTATUS(st) == 0) {
         if (haveL) { R.cls = "leak"; R.detail = readFile(g_errFile).substr(0, 3000); return R; }
         if (haveK && haveP) { R.cls = "ok"; return R; }
@@ -719,6 +722,7 @@ int main(int argc, char** argv) {
     { const char* t = std::getenv("TMPDIR"); g_errFile = std::string(t ? t : "/tmp") + "/c11-err-" + std::to_string((long) getpid()) + ".txt"; }
     if (const char* e = std::getenv("C11_MEM_MB")) LIM.memBytes = (size_t) std::atol(e) << 20;
     if (const char* e = std::getenv("C11_STACK_KB")) LIM.stackBytes = (size_t) std::atol(e) << 10;
+    if (std::getenv("C11_NO_EXERCISE")) g_noExercise = true;
     if (const char* e = std::getenv("C11_CPU_BASE")) LIM.cpuBase = std::atof(e);
     if (const char* e = std::getenv("C11_CPU_PER_MIB")) LIM.cpuPerMiB = std::atof(e);
     warmUp();
